@@ -12,7 +12,7 @@ import (
 
 func init() { registry["C19"] = c19Units }
 
-var c19Tokens = []string{"plain", "a b", "a\tb", "a\nb", "'", `"`, `\`, "$HOME", "$(id)", "`id`", "*", "?", "~", ";", "&", "|", "#", "!", "{{.X}}", "{{", "}}", "=", "a=b=c", "", "-x", "é", strings.Repeat("long", 1024)}
+var c19Tokens = []string{"plain", "a b", "a\tb", "a\nb", "'", `"`, `\`, "$HOME", "$(id)", "`id`", "*", "?", "~", ";", "&", "|", "#", "!", "{{.X}}", "{{", "}}", "=", "a=b=c", "", "-x", "é", strings.Repeat("long", 1024), "{a,b}", "--os={l,d}", "-{1..3}", "a{b", "[a-z]", "%s", "^", "-", "--", "<x>", "(a)"}
 
 func tokClass(t string) string {
 	switch {
@@ -28,9 +28,11 @@ func tokClass(t string) string {
 		return "quote_chars"
 	case strings.ContainsAny(t, "$`"):
 		return "expansion_chars"
+	case strings.ContainsAny(t, "{}[]"):
+		return "brace_chars"
 	case strings.ContainsAny(t, "*?~"):
 		return "glob_chars"
-	case strings.ContainsAny(t, ";&|#!"):
+	case strings.ContainsAny(t, ";&|#!<>()^%"):
 		return "operator_chars"
 	case strings.Contains(t, "="):
 		return "equals"
@@ -42,7 +44,7 @@ func tokClass(t string) string {
 
 func vecClass(v []string) string {
 	best := "plain"
-	rank := map[string]int{"plain": 0, "dash": 1, "equals": 2, "long": 3, "empty": 4, "operator_chars": 5, "glob_chars": 6, "expansion_chars": 7, "quote_chars": 8, "whitespace": 9, "template_chars": 10}
+	rank := map[string]int{"plain": 0, "dash": 1, "equals": 2, "long": 3, "empty": 4, "operator_chars": 5, "brace_chars": 6, "glob_chars": 6, "expansion_chars": 7, "quote_chars": 8, "whitespace": 9, "template_chars": 10}
 	for _, t := range v {
 		if c := tokClass(t); rank[c] > rank[best] {
 			best = c
